@@ -129,7 +129,8 @@ def run(ctx):
                 bad['value is not the sum of the interval optima'] = [s['value'], iv]
         elif s.get('solve') == 'crash':
             bad['split optimisation crashed'] = s.get('solve_error')
-        if s.get('solve') == 'optimal' and s.get('out') is None:
+        if s.get('solve') == 'optimal' and s.get('out') is None and not (o.get('solve') == 'optimal' and o.get('out') is None):
+            # (where the unsplit result cannot be decoded either, the failure is no inconsistency of the split)
             bad['extract_output fails on the split result'] = s.get('out_error')
         # ---- against the unsplit problem
         coupled_hard = any(a['kind'] == 'Storage' and a.get('start_level', 0.0) != a.get('end_level', 0.0) for a in sp['assets'])
